@@ -41,6 +41,19 @@ func hookFn(n int) bexpr.ValueTransformationHookFn {
 		return func(v reflect.Value) reflect.Value { return reflect.ValueOf(7) }
 	case 4:
 		return func(v reflect.Value) reflect.Value { return reflect.ValueOf(nil) }
+	case 5: // rewrites scalars, leaves containers alone: plain strings are upper-cased (ASCII only)
+		return func(v reflect.Value) reflect.Value {
+			if v.IsValid() && v.Type() == strT {
+				b := []byte(v.String())
+				for i, c := range b {
+					if c >= 'a' && c <= 'z' {
+						b[i] = c - 32
+					}
+				}
+				return reflect.ValueOf(string(b))
+			}
+			return v
+		}
 	}
 	return nil
 }
@@ -268,7 +281,8 @@ func kindMatrix() []kindSample {
 		{"MapNamedKey", map[NStr]int{"a": 1}}, {"MapBoolKey", map[bool]int{true: 1}}, {"MapFloatKey", map[float64]int{1: 1}}, {"MapIfaceKey", map[interface{}]interface{}{"a": 1, 1: "a"}},
 		{"Ptr", pone}, {"NilPtr", nilp}, {"PtrPtr", &pone}, {"NilPtrPtr", nilpp}, {"PtrToNilPtr", &nilp}, {"Slice", []int{1, 2}}, {"NilSlice", nilslice}, {"EmptySlice", []int{}},
 		{"SliceOfPtr", []*int{pone, nil}}, {"SliceOfPtrPtr", []**int{&pone, &nilp, nil}}, {"SliceOfIface", []interface{}{1, nil, "a", 1.5, true, []int{1}, map[string]int{}, nilp, pone}},
-		{"SliceOfIfaceNilOnly", []interface{}{nil}}, {"Bytes", []byte("a")}, {"String", "a"}, {"PtrString", &s}, {"NamedString", NStr("a")}, {"NamedInt", NInt(1)},
+		{"SliceOfIfaceNilOnly", []interface{}{nil}}, {"SliceOfIfaceObjectFirst", []interface{}{map[string]interface{}{"o": 1}, "a", 1, true, 1.5}}, {"SliceOfIfaceListFirst", []interface{}{[]int{1}, 1, "a"}}, {"SliceOfIfaceStructFirst", []interface{}{S1{}, "a", 1}},
+		{"MapNamedStrKeyIfaceVal", map[NStr]interface{}{"a": 1, "b": "a"}}, {"MapNamedStrKeyStruct", map[NStr]S1{"a": {A: 1}}}, {"Bytes", []byte("a")}, {"String", "a"}, {"PtrString", &s}, {"NamedString", NStr("a")}, {"NamedInt", NInt(1)},
 		{"Struct", S1{A: 1}}, {"PtrStruct", &S1{A: 1}}, {"StructUnexported", S2{}}, {"UnsafePointerLike", uintptr(0)}, {"JsonNumber", json.Number("1")}, {"PtrJsonNumber", func() *json.Number { j := json.Number("1"); return &j }()},
 		{"ArrayOfIface", [2]interface{}{nil, 1}}, {"MapOfIface", map[string]interface{}{"a": nil, "b": 1}}, {"SliceOfSlices", [][]int{{1}, nil}}, {"NaN", math.NaN()},
 		{"MapPtrVal", map[string]*int{"a": nil, "b": pone}}, {"SliceOfNamedUint8", []Octet{1, 2}}, {"NamedSliceOfNamedUint8", Octets{1}}, {"NamedBytes", NBytes("a")}, {"ArrayOfBytes", [2]byte{97, 98}}, {"PtrBytes", func() *[]byte { b := []byte("a"); return &b }()},
